@@ -234,7 +234,7 @@ var credVariants = []struct {
 }{{nil, nil}, {strp("gwuser"), nil}, {strp("gwuser"), []byte("gwpass")}, {nil, []byte("onlypass")}}
 
 // runConnectSeq runs one lock-step sequence of client packets against a fresh session.
-func runConnectSeq(t *testing.T, c *rt.Case, seq []sym, auth bool, cred int, connackRC byte, silent bool, gaps []time.Duration) *GWRun {
+func runConnectSeq(t *testing.T, c *rt.Case, seq []sym, auth bool, cred int, connackRC byte, silent bool, gaps []time.Duration, sessOpts ...func(*world.Session)) *GWRun {
 	g := &GWRun{}
 	g.Cfg = world.GWConfig{Auth: auth, User: credVariants[cred].u, Password: credVariants[cred].p, Predefined: stdPredefined(), RetryDelay: 10 * time.Second, RetryCount: 2}
 	g.BCfg = world.BrokerCfg{ConnackRC: connackRC, Silent: silent}
@@ -247,6 +247,9 @@ func runConnectSeq(t *testing.T, c *rt.Case, seq []sym, auth bool, cred int, con
 		w := world.New(g.Cfg)
 		b := world.NewBroker(g.BCfg)
 		s := w.NewSession(nil, b.Handler())
+		for _, o := range sessOpts {
+			o(s)
+		}
 		synctest.Wait()
 		for i, sy := range seq {
 			if i < len(gaps) && gaps[i] > 0 {
